@@ -151,7 +151,238 @@ let codec_main file =
   with End_of_file -> ());
   Printf.printf "SUMMARY cases=%d diffs=%d\n" !n !diffs
 
+
+(* ======================= trace mode (data plane) ============================ *)
+let bs = bytes_of_string
+let sb = string_of_bytes
+
+let score_str (s : Num.score) : string = sb (Num.format_score s)
+
+let value_tokens (v : Db.value) : string =
+  match v with
+  | Db.VStr s -> Printf.sprintf "s %d %s" (if s.DsStr.snil then 1 else 0) (tok_out (sb s.DsStr.sv))
+  | Db.VList l ->
+      let el = l.DsList.lx in
+      String.concat " " (Printf.sprintf "l %d %d ok" (int_of_coqz l.DsList.ll) (List.length el)
+                         :: List.map (fun e -> tok_out (sb e)) el)
+  | Db.VHash h ->
+      String.concat " " (Printf.sprintf "h %d" (List.length h)
+                         :: List.concat_map (fun (k, v) -> [tok_out (sb k); tok_out (sb v)]) h)
+  | Db.VSet s ->
+      String.concat " " (Printf.sprintf "S %d" (List.length s) :: List.map (fun (m, _) -> tok_out (sb m)) s)
+  | Db.VZSet z ->
+      let d = z.DsZSet.zd and l = z.DsZSet.zl in
+      String.concat " "
+        ((Printf.sprintf "z ok %d" (List.length d)
+          :: List.concat_map (fun (m, s) -> [tok_out (sb m); score_str s]) d)
+         @ (string_of_int (List.length l)
+            :: List.concat_map (fun (s, m) -> [tok_out (sb m); score_str s]) l))
+
+let rec nm_get k m = match m with [] -> None | (k', v) :: r -> if k = k' then Some v else nm_get k r
+
+let nat_to_int (n : Datatypes.nat) : int =
+  let rec go n acc = match n with Datatypes.O -> acc | Datatypes.S k -> go k (acc + 1) in go n 0
+
+let obj_tokens (d : Db.db) (o : Datatypes.nat option) : string =
+  match o with
+  | None -> "cold"
+  | Some r -> (match nm_get r d.Db.vobjs with Some v -> value_tokens v | None -> "dangling")
+
+let pebble_entry_tokens (v : Db.value) : string =
+  let ty = int_of_coqz (Db.vtype v) in
+  let payload =
+    match v with
+    | Db.VStr s -> sb s.DsStr.sv
+    | Db.VList l -> sb (Codec.list_enc l.DsList.lx)
+    | Db.VHash h -> sb (Codec.hash_enc h)
+    | Db.VSet s -> sb (Codec.set_enc (List.map fst s))
+    | Db.VZSet z -> sb (Codec.zset_enc (List.map (fun (m, _) -> (BinNums.N0, m)) z.DsZSet.zd)) in
+  let bytes = String.make 1 (Char.chr ty) ^ payload in
+  match v with
+  | Db.VZSet _ -> Printf.sprintf "z:%d %d" (String.length bytes) ty
+  | _ -> Printf.sprintf "%s:%d %d" (Digest.to_hex (Digest.string bytes)) (String.length bytes) ty
+
+let model_dump (d : Db.db) : string list =
+  let keys =
+    List.map (fun (name, m) ->
+      let (_, exp) = (match nm_get m.Db.m_key d.Db.kobjs with Some k -> k | None -> ([], BinNums.Z0)) in
+      Printf.sprintf "K %s %s %d %d %d %d %s" (tok_bytes (sb name)) (Z.to_string (z_of_coqz exp))
+        (match m.Db.m_val with Some _ -> 1 | None -> 0) (if m.Db.m_mod then 1 else 0)
+        (int_of_coqz m.Db.m_count) (int_of_coqz m.Db.m_vtype) (obj_tokens d m.Db.m_val)) d.Db.idx in
+  let ents =
+    List.map (fun (enc, e) ->
+      match e with
+      | Db.SMem (k, o) ->
+          let (nm, exp) = (match nm_get k d.Db.kobjs with Some k -> k | None -> ([], BinNums.Z0)) in
+          Printf.sprintf "M %s %s %s %s" (tok_bytes (sb enc)) (tok_bytes (sb nm)) (Z.to_string (z_of_coqz exp))
+            (obj_tokens d (Some o))
+      | Db.SPeb v -> Printf.sprintf "P %s %s" (tok_bytes (sb enc)) (pebble_entry_tokens v)) d.Db.disk in
+  (Printf.sprintf "DUMP %d" (List.length keys) :: keys) @ (Printf.sprintf "ST %d" (List.length ents) :: ents)
+
+let act_token (a : Handlers.wact) : string =
+  match a with
+  | Handlers.WStr s -> "S" ^ tok_bytes (sb s)
+  | Handlers.WBulk b -> "B" ^ tok_out (sb b)
+  | Handlers.WArr n -> "A" ^ Z.to_string (z_of_coqz n)
+  | Handlers.WErr -> "E"
+  | Handlers.WNullBulk -> "N"
+  | Handlers.WNullArr -> "n"
+  | Handlers.WInt z -> "I" ^ Z.to_string (z_of_coqz z)
+
+(* replies whose element order comes from Go map iteration: sort the field/value pairs *)
+let canon_reply (name : string) (toks : string list) : string list =
+  let sort_pairs l =
+    let rec pr l = match l with a :: b :: r -> (a, b) :: pr r | _ -> [] in
+    List.concat_map (fun (a, b) -> [a; b]) (List.sort compare (pr l)) in
+  match name, toks with
+  | "HGETALL", (hd :: rest) when String.length hd > 0 && hd.[0] = 'A' -> hd :: sort_pairs rest
+  | "HSCAN", (a :: c :: hd :: rest) when a = "A2" -> a :: c :: hd :: sort_pairs rest
+  | _ -> toks
+
+type trace_stats = { mutable cases : int; mutable steps : int; mutable unm : int; mutable diffs : int;
+                     mutable cut_cases : int; mutable ambiguous : int }
+
+let trace_main file =
+  let ic = open_in file in
+  let st = { cases = 0; steps = 0; unm = 0; diffs = 0; cut_cases = 0; ambiguous = 0 } in
+  let lines = ref [] in
+  (try while true do lines := input_line ic :: !lines done with End_of_file -> ());
+  let lines = Array.of_list (List.rev !lines) in
+  let n = Array.length lines in
+  let i = ref 0 in
+  let server = ref (Conn.server_new false) in
+  let case_id = ref "" in
+  let active = ref false in
+  let stepno = ref 0 in
+  (* read the dump block that follows a step *)
+  let read_dump () : string list =
+    let acc = ref [] in
+    while !i < n && (let l = lines.(!i) in
+                     String.length l > 0 &&
+                     (match l.[0] with 'D' | 'K' | 'S' | 'M' | 'P' -> not (String.length l > 1 && l.[1] = 'T' && l.[0] <> 'S') | _ -> false)
+                     && not (String.length l >= 2 && String.sub l 0 2 = "OP")) do
+      acc := lines.(!i) :: !acc; incr i
+    done;
+    List.rev !acc in
+  while !i < n do
+    let l = lines.(!i) in
+    incr i;
+    let toks = split_ws l in
+    (match toks with
+     | "CASE" :: id :: be :: _ ->
+         st.cases <- st.cases + 1; case_id := id; active := true; stepno := 0;
+         server := Conn.server_new (be = "peb")
+     | "END" :: _ -> active := false
+     | ("OP" | "X") :: _ when !active ->
+         incr stepno;
+         (* split at "=>" *)
+         let rec split acc l = match l with
+           | "=>" :: r -> (List.rev acc, r)
+           | x :: r -> split (x :: acc) r
+           | [] -> (List.rev acc, []) in
+         let (lhs, reply) = split [] toks in
+         let dump = read_dump () in
+         let nl = List.length lhs in
+         let t0 = Z.of_string (List.nth lhs (nl - 2)) and t1 = Z.of_string (List.nth lhs (nl - 1)) in
+         let cands =
+           let w = Z.to_int (Z.sub t1 t0) in
+           if w <= 40 then List.init (w + 1) (fun k -> Z.add t0 (Z.of_int k))
+           else [t0; Z.add t0 (Z.of_int (w / 2)); t1] in
+         let fail kind model impl =
+           st.diffs <- st.diffs + 1; active := false;
+           Printf.printf "DIFF %s step=%d kind=%s\n  cmd: %s\n  model: %s\n  impl:  %s\n" !case_id !stepno kind
+             (String.concat " " lhs) model impl in
+         (match lhs with
+          | "OP" :: conn :: name :: nargs :: rest ->
+              let nargs = int_of_string nargs in
+              let rest = if nargs = 0 then List.tl rest else rest in
+              let args = List.map (fun t -> bs (parse_tok t)) (take nargs rest) in
+              let c = nat_of_int (int_of_string conn) in
+              let impl_reply = canon_reply name reply in
+              let try_now now =
+                match Conn.serve c (bs name) args (coqz_of_z now) !server with
+                | None -> `Unm
+                | Some (s', acts) ->
+                    let mr = canon_reply name (List.map act_token acts) in
+                    let md = model_dump s'.Conn.s_db in
+                    `Res (s', mr, md) in
+              let results = List.map try_now cands in
+              if List.exists (fun r -> r = `Unm) (List.map (function `Unm -> `Unm | _ -> `X) results) then begin
+                st.unm <- st.unm + 1; st.cut_cases <- st.cut_cases + 1; active := false;
+                Printf.printf "UNM %s step=%d %s\n" !case_id !stepno name
+              end else begin
+                st.steps <- st.steps + 1;
+                let ok = List.filter_map (function
+                  | `Res (s', mr, md) when mr = impl_reply && (dump = [] || md = dump) -> Some s'
+                  | _ -> None) results in
+                match ok with
+                | s' :: _ -> server := s'
+                | [] ->
+                    (* TTL has nanosecond resolution: allow the neighbouring millisecond *)
+                    let ttl_ok =
+                      name = "TTL" &&
+                      (match Conn.serve c (bs name) args (coqz_of_z (Z.succ t1)) !server with
+                       | Some (s', acts) when List.map act_token acts = impl_reply -> server := s'; true
+                       | _ -> false) in
+                    if not ttl_ok then
+                    (match List.hd results with
+                     | `Res (_, mr, md) ->
+                         if mr <> impl_reply then fail "reply" (String.concat " " mr) (String.concat " " impl_reply)
+                         else begin
+                           let rec first_diff a b k = match a, b with
+                             | x :: ra, y :: rb -> if x = y then first_diff ra rb (k + 1) else (x, y)
+                             | x :: _, [] -> (x, "<missing>")
+                             | [], y :: _ -> ("<missing>", y)
+                             | [], [] -> ("", "") in
+                           let (m, im) = first_diff md dump 0 in
+                           fail "state" m im
+                         end
+                     | `Unm -> ())
+              end
+          | "X" :: op :: arg :: _ ->
+              st.steps <- st.steps + 1;
+              let res = match reply with r :: _ -> r | [] -> "" in
+              let d = !server.Conn.s_db in
+              let apply now =
+                match op with
+                | "GC" -> if Db.gc_modelled d then Some (Conn.put_db (Db.gc (coqz_of_z now) d) !server) else None
+                | "FLUSH" -> Some (Conn.put_db (Db.flush (coqz_of_z now) d) !server)
+                | "REOPEN" ->
+                    let d' = Db.open_scan (Db.close (coqz_of_z now) d) in
+                    Some { Conn.s_db = d'; Conn.s_conns = []; Conn.s_registry = [] }
+                | "FAULTS" ->
+                    let fl = List.init (String.length arg) (fun k -> arg.[k] = '1') in
+                    Some (Conn.put_db (Db.with_faults d (if arg = "-" then [] else fl)) !server)
+                | _ -> Some !server in
+              if res <> "ok" then fail "xop" "ok" res
+              else begin
+                let rs = List.map (fun now -> match apply now with
+                                              | Some s' -> Some (s', model_dump s'.Conn.s_db) | None -> None) cands in
+                if List.mem None rs then begin
+                  st.unm <- st.unm + 1; st.cut_cases <- st.cut_cases + 1; active := false;
+                  Printf.printf "UNM %s step=%d X %s\n" !case_id !stepno op
+                end else
+                  match List.filter_map (function Some (s', md) when dump = [] || md = dump -> Some s' | _ -> None) rs with
+                  | s' :: _ -> server := s'
+                  | [] ->
+                      (match List.hd rs with
+                       | Some (_, md) ->
+                           let rec first_diff a b = match a, b with
+                             | x :: ra, y :: rb -> if x = y then first_diff ra rb else (x, y)
+                             | x :: _, [] -> (x, "<missing>")
+                             | [], y :: _ -> ("<missing>", y)
+                             | [], [] -> ("", "") in
+                           let (m, im) = first_diff md dump in
+                           fail "state" m im
+                       | None -> ())
+              end
+          | _ -> ())
+     | _ -> ())
+  done;
+  Printf.printf "SUMMARY cases=%d steps=%d unm=%d diffs=%d\n" st.cases st.steps st.unm st.diffs
+
 let () =
   match Array.to_list Sys.argv with
   | _ :: "codec" :: file :: _ -> codec_main file
+  | _ :: "trace" :: file :: _ -> trace_main file
   | _ -> prerr_endline "usage: mrun <mode> <file>"; exit 2
